@@ -132,6 +132,17 @@ def rule_ods_rows_keep_their_cells(ctx):
     rule_empty_rows(ctx, "O4.5")
 
 
+def rule_items_are_the_cells_of_the_sheet(ctx):
+    """O4.6 / O4.7: "every item is accepted by the field in the same position" is about the item the sheet holds: the ODS
+    reader delivers every character of a cell (blanks stored as text:s, tabs, line breaks, text after them - C15's table)
+    and the Excel reader the text of the stored value (0 and FALSE are "0", not empty - C16's table)."""
+    from .c15 import rule_cell_texts
+    from .c16 import rule_cell_values
+
+    rule_cell_texts(ctx, "O4.6")
+    rule_cell_values(ctx, "O4.7")
+
+
 def rule_csv_errors_name_their_line(ctx):
     """O10.csv-error (shared with C10/C06): a row the csv reader cannot parse is reported with the number of that line."""
     from .c10 import rule_delimited_error_helper
@@ -139,4 +150,4 @@ def rule_csv_errors_name_their_line(ctx):
     rule_delimited_error_helper(ctx, check_location=True)
 
 
-RULES = [rule_validate_row, rule_cursor, rule_location_copies, rule_raw_rows_dispatch, rule_ods_rows_keep_their_cells, rule_csv_errors_name_their_line, rule_module_state]
+RULES = [rule_validate_row, rule_cursor, rule_location_copies, rule_raw_rows_dispatch, rule_ods_rows_keep_their_cells, rule_items_are_the_cells_of_the_sheet, rule_csv_errors_name_their_line, rule_module_state]
